@@ -646,7 +646,8 @@ func c08Gen(r *proto.Rng, n int, tier string, emit func(in ...string)) {
 		case 3:
 			codes = []int{404, 201, 500}
 		case 4:
-			codes = []int{c08PickInt(r, 200, 201, 202, 204, 299), c08PickInt(r, 200, 204, 300, 404)}
+			// every registered 2xx status at one time or another (only 204 is body-less)
+			codes = []int{c08PickInt(r, 200, 201, 202, 203, 204, 205, 206, 207, 208, 226, 299), c08PickInt(r, 200, 204, 205, 300, 404)}
 		case 5:
 			codes = []int{400, 404}
 		default:
